@@ -6,10 +6,14 @@
 set -u
 WT="$1"; NAME="$2"; FILTER="$3"; shift 3
 OUT=/tmp/seedout-$NAME
-rm -rf "$OUT"; cp -r "$WT/SEED_OUT" "$OUT" || exit 2
+if [ -d "$WT/SEED_OUT" ]; then rm -rf "$OUT"; cp -r "$WT/SEED_OUT" "$OUT" || exit 2; fi
+if [ ! -f "$OUT/patch.diff" ] && [ -f "/verif/seeded/$NAME/patch.diff" ]; then mkdir -p "$OUT"; cp /verif/seeded/$NAME/* "$OUT"/; fi
+[ -f "$OUT/patch.diff" ] || { echo "no seed output for $NAME"; exit 2; }
 cd "$WT" || exit 2
 git stash -u -q 2>/dev/null; git checkout -q -- . ; git clean -fdq -e target
-LOG="$OUT/confirm.log"; : > "$LOG"
+LOG="$OUT/confirm.log"
+if [ "${SKIP_CONFIRM:-0}" = "1" ]; then echo "confirm: skipped (already confirmed)"; else
+: > "$LOG"
 git apply "$OUT/demo.diff" || { echo "demo.diff does not apply"; exit 2; }
 cargo test --workspace --offline "$FILTER" >>"$LOG" 2>&1; rc_without=$?
 git apply "$OUT/patch.diff" || { echo "patch.diff does not apply"; exit 2; }
@@ -17,7 +21,8 @@ cargo test --workspace --offline "$FILTER" >>"$LOG" 2>&1; rc_with=$?
 cargo test --workspace --no-fail-fast --offline > "$OUT/suite_with.log" 2>&1
 failed=$(grep -E "^test .* FAILED$" "$OUT/suite_with.log" | grep -v "$FILTER" | wc -l)
 passed=$(grep -E "^test result: " "$OUT/suite_with.log" | awk '{s+=$4} END {print s}')
-echo "confirm: demo without change rc=$rc_without (want 0), with change rc=$rc_with (want != 0); other failing tests with change: $failed; tests passed: $passed"
+echo "confirm: demo without change rc=$rc_without (want 0), with change rc=$rc_with (want != 0); other failing tests with change: $failed; tests passed: $passed" | tee "$OUT/confirm.txt"
+fi
 cd /repo || exit 2
 if ! git diff --quiet; then echo "/repo dirty"; exit 2; fi
 git apply "$OUT/patch.diff" || { echo "patch does not apply to /repo"; exit 2; }
